@@ -89,7 +89,7 @@ def build_cli():
 
 
 # ----------------------------------------------------------------------------- TLC
-def tlc(module, cfg, name, workers=8, env=None, timeout=1200, extra=None, heap="8g", coverage=False, simulate=None):
+def tlc(module, cfg, name, workers=8, env=None, timeout=1200, extra=None, heap="8g", coverage=False, simulate=None, jvm=None):
     """Run TLC on spec/<module>.tla with spec/<cfg>. Returns dict(out=path, states=, distinct=, ok=, text=)."""
     ensure_dirs()
     name = "%s.p%d" % (name, os.getpid())
@@ -99,6 +99,7 @@ def tlc(module, cfg, name, workers=8, env=None, timeout=1200, extra=None, heap="
     outp = os.path.join(BUILD, "tlc", name + ".out")
     cmd = ["java", "-XX:+UseParallelGC", "-Xmx" + heap, "-Xss1g", "-Djava.io.tmpdir=" + TMP,
            "-Dtlc2.tool.queue.IStateQueue=StateDeque" if workers == 1 else "-Dverif=1",
+           ] + (jvm or []) + [
            "-cp", JAR, "tlc2.TLC", "-workers", str(workers), "-metadir", meta, "-cleanup", "-noGenerateSpecTE",
            "-config", os.path.join(SPEC, cfg)]
     if coverage:
